@@ -61,8 +61,15 @@ class SubjectCrash(Exception):
 
 
 def run_subject(cmd, timeout=None, env=None, cwd=None):
-    """Run a harness binary that drives the code under test."""
-    p = run(cmd, timeout=timeout, env=env, cwd=cwd, check=False)
+    """Run a harness binary that drives the code under test.  The process dying, or not finishing within a
+    time limit that is dozens of times its normal duration (the code under test hangs or crawls from one
+    internal watchdog to the next), is data about the code under test, not a tool error."""
+    try:
+        p = run(cmd, timeout=timeout, env=env, cwd=cwd, check=False)
+    except ToolError as e:
+        if "timeout after" in str(e):
+            raise SubjectCrash(cmd, f"no progress: not finished after {timeout}s", str(e)) from e
+        raise
     if p.returncode != 0:
         raise SubjectCrash(cmd, p.returncode, (p.stdout or "")[-6000:])
     return p
